@@ -21,7 +21,12 @@ def rule(prop):
                            "spends at least 3 steps on it (reaches a loop), distinct by op line")
 
 
-RULES = {}
+RULES = {
+    "C13": "structured generator (tools/gens.py): adversarial needle/haystack families at sizes 2^8..2^16 (quick) with the "
+           "model's step counter compared for EQUALITY with the real counter, the real counter bounded by 16*(n+m)+2000, a "
+           "hook-level work limit, and megabyte families whose wall-clock time (minimum of up to 3 runs) is bounded by "
+           "600 ns*(n+m)+0.2 s (a test for work hidden in library calls, not a proof); non-trivial = the model spends >= 3 steps",
+}
 
 
 def exhaustive(prop, tier):
